@@ -4,11 +4,17 @@ import traceback
 
 import numpy as np
 
-from vcheck import gen_all
+from vcheck import gen_all, core
 from translate import pysym
+from harness import nd_corr as nc, circgen as cg
 
 THEOREMS = ['C12_bp8_nary', 'C12_bp4_nary', 'C12_mv_nary', 'C12_unary', 'C12_unary_inplace', 'C12_mv_bp_agree',
-            'C12_bool_restriction', 'C12_de_morgan_bool', 'C12_de_morgan8', 'C12_lanes_independent']
+            'C12_bool_restriction', 'C12_de_morgan_bool', 'C12_de_morgan8', 'C12_lanes_independent',
+            # array layer (Model/NdArray.v, Model/MvWrappers.v): wrappers on arrays of any shape
+            'C12_index_offset_bijection', 'C12_broadcast_rule', 'C12_broadcast_fail', 'C12_broadcast_index',
+            'C12_wrapper_elementwise', 'C12_wrapper_exact', 'C12_wrapper_out', 'C12_wrapper_junk_irrelevant',
+            'C12_wrapper_not', 'C12_wrapper_not_out', 'C12_elem_algebra', 'C12_wrapper_example', 'C12_wrapper_broadcast_refuted',
+            'C12_transition_exact', 'C12_transition_elementwise', 'C12_transition_out', 'C12_transition_example']
 
 Z, X, U, O, P, R, F, N = range(8)
 
@@ -67,6 +73,60 @@ def call_mv(logic, op, cs):
     out = np.full(n, 0xa5, dtype=np.uint8)
     getattr(logic, f'_mv_{op}')(out, *[c.copy() for c in cs])
     return out
+
+
+def array_layer(ck, logic):
+    """Correspondence numpy / logic.mv_* vs the shape-polymorphic Coq model on random shapes (ranks 0..5, axes of length 1 and 0,
+    missing leading axes, incompatible shapes, out= None / right / with extra leading 1 axes / wrong) + the contract stated by
+    multi-index with the harness' own broadcasting rule.  The wrapper theorems of Properties/C12.v are about this model."""
+    import random
+    rng = random.Random(ck.seed * 7919 + 1212)
+    n = ck.scale(170, 2500)
+    cases, owner, descs, fails = [], [], [], []
+    for i in range(n):
+        c, d, f = nc.wrapper_case(rng, logic)
+        descs.append(d)
+        ck.count(1, 'array-layer:' + d['op'] + (':out=' if d['out_shape'] is not None else ''))
+        ck.nontrivial(('array-layer', d['op'], str(d['x1_shape']), str(d['x2_shape']), str(d['out_shape'])))
+        if c is not None:
+            cases.append(c)
+            owner.append(i)
+        for key, msg in f:
+            fails.append((key, d, msg))
+        if i % 3 == 0:
+            for c in nc.primitive_cases_c12(rng):
+                cases.append(c)
+                owner.append(None)
+                ck.count(1, 'array-layer:numpy-primitive')
+    chunk = 150
+    chunks = [cases[i:i + chunk] for i in range(0, len(cases), chunk)]
+    outs = ck.coq_eval_many('nd', [nc.cases_file(ch) for ch in chunks], jobs=12)
+    bad = [ci * chunk + j for ci, (okk, out) in enumerate(outs) for j in ((cg.parse_nat_list(out) if okk else None) or [])]
+    ran = all(okk and cg.parse_nat_list(out) is not None for okk, out in outs)
+    detail = ''
+    if not ran:
+        detail = next((core.coq_first_error(out) for okk, out in outs if not okk or cg.parse_nat_list(out) is None), '')
+    elif bad:
+        detail = 'model and implementation differ on: ' + ' ;; '.join(cases[b][:300] for b in bad[:4])
+    ck.obligation(f'Coq model Model/NdArray.v + Model/MvWrappers.v = numpy / logic.mv_not, mv_or, mv_and, mv_xor, mv_transition on {len(cases)} calls '
+                  '(broadcast shapes, ravel/unravel, a|b, out=/where=, putmask, wrapper results and exceptions) on random shapes',
+                  ran and not bad, 'correspondence', detail)
+    ck.rule('array layer: mv_not / mv_or / mv_and / mv_xor / mv_transition on random operand shapes of rank 0..5 (axes of length 0 and 1, missing leading axes, '
+            'either operand or both stretched, incompatible shapes) x out= absent / broadcast shape / extra leading 1 axes / wrong shape or size, keyword and positional; '
+            'numpy primitives (broadcast shapes of 2 and 3 operands, ravel/unravel, a|b, out=/where=, putmask) on the same shape generator')
+    ck.trust('array model Model/NdArray.v: numpy broadcasting, ufunc out=/where= (operands must stretch to out), putmask (same size, flat order), '
+             'row-major element order are small Coq functions = assumptions about numpy, compared with the real calls on every generated shape')
+    seen = set()
+    for key, d, msg in fails:
+        if key in seen:
+            continue
+        seen.add(key)
+        ck.fail(key, f'logic.{d["op"]}: {msg}', {'component': 'array-layer:logic.' + d['op'], 'input': d, 'actual': msg})
+    if not fails and bad:
+        b = bad[0]
+        d = descs[owner[b]] if owner[b] is not None else {'op': 'numpy primitive'}
+        ck.fail('model:array-layer', f'{d["op"]}: the implementation differs from the Coq array model (for which the C12 wrapper theorems are proved)',
+                {'component': 'array-layer:model', 'input': d, 'coq_case': cases[b][:3000], 'actual': 'result differs from Model/MvWrappers.v', 'model_case': True})
 
 
 def run(ck):
@@ -246,6 +306,11 @@ def run(ck):
     ck.rule('exhaustive 8^k (4^k) operand combinations for k=1..4 per operator and format (distinct = operator x format x arity); '
             'plus random shapes/broadcasting/lane counts/out= for the public wrappers')
     ck.cov['exhaustive'] = True
+    okc, log = core.coq_make(['theories/Model/NdCorr.vo'], timeout=600)
+    if okc:
+        array_layer(ck, logic)
+    else:
+        ck.obligation('build Model/NdCorr.vo', False, 'correspondence', core.coq_first_error(log))
 
     for name, operands, what in failures:
         ck.fail(f'op:{name}', f'{name} on operands {operands}: {what}',
@@ -258,10 +323,29 @@ def run(ck):
         ck.fail(f'wrapper:{key}', f'logic.{key} {what}', {'component': 'logic.' + key, 'input': {'x1': a, 'x2': b}, 'actual': what})
 
 
+def replay_array_layer(rp):
+    """re-runs one wrapper call of the array-layer stream: oracle, and for model cases the Coq comparison"""
+    from kyupy import logic
+    d = rp['input']
+    if 'x1_shape' not in d:
+        return True
+    coq, fails = nc.run_wrapper(logic, d)
+    if fails or coq is None:
+        return True
+    if rp.get('model_case'):
+        ck = core.Check('C12', 'quick', 0)
+        okk, o = ck.coq_eval('replay', nc.cases_file([coq]))
+        bad = cg.parse_nat_list(o) if okk else None
+        return bad is None or bool(bad)
+    return False
+
+
 def replay(rp):
     from kyupy import logic
     comp = rp.get('component', '')
     inp = rp.get('input', {})
+    if comp.startswith('array-layer:'):
+        return replay_array_layer(rp)
     if 'operands' in inp and inp['operands'] is not None:
         name, k = comp.replace('translator:', '').split('/')
         fmt, op = name.split('_')
